@@ -1172,6 +1172,9 @@ def quoted_sink_rule(syn, prop, rule="C04.R4", direct_only=False):
                 calls = S.format_calls(e["tokens"])
             elif e["name"] == "format":
                 toks = e["tokens"]
+                # the text of a diagnostic (`Error::new(span, format!(..))`) is shown by the compiler, not written to a .ts file
+                if any(c["k"] == "arg" and re.search(r"Error::new(_spanned)?$|syn_err", S.squash(c.get("of", ""))) for c in e["ctx"]):
+                    continue
                 if toks and isinstance(toks[0], str):
                     args, cur = [], []
                     for x in toks[1:]:
@@ -1816,23 +1819,29 @@ def optional_table_rule(syn, prop, rule="C02.R6"):
     return r
 
 
-def export_test_rule(syn, prop, rule="C11.R5"):
-    r = Result(rule, "the generated `#[test] fn export_bindings_*` calls export_all() (type plus dependencies) on the item instantiated with Dummy for every non-concrete type parameter and fails loudly on an export error")
-    fn = syn.fn("DerivedTS::generate_export_test", "macros/src/lib.rs")
-    if fn is None:
-        r.fail(prop, "anchor-missing generate_export_test", "not found")
+def export_test_rule(syn, prop, rule="C11.R5", crate=None):
+    from vlib import quotelib as Q
+    r = Result(rule, "the template of the generated export test, with the token streams it interpolates spliced in (MIR): it is `#[cfg(test)] #[test]`, calls `export_all()` (type plus dependencies) on `<Item<..> as TS>` with the item's own name and a list of generic arguments, and consumes the Result with expect/unwrap so that a failed export fails the test; which arguments stand in for the type parameters is decided with the other emitters of generic parameters")
+    found = []
+    for ib, tpls, keep in Q.function_templates(crate, "DerivedTS::generate_export_test"):
+        for t in tpls:
+            if "# [ test ]" in t.text() or "export_all" in t.text():
+                found.append((ib, t, " ".join(S.flat(Q.expanded(ib, t, tpls)))))
+    if not found:
+        r.fail(prop, "anchor-missing generate_export_test", "no template of a `#[test]` function found in generate_export_test")
+        r.floor = 1
         return r
-    main = [e for e in templates(fn) if "export_all" in S.flat(e["tokens"])]
-    ok = False
-    if main:
-        txt = " ".join(S.flat(main[0]["tokens"]))
-        ok = "# [ cfg ( test ) ]" in txt and "# [ test ]" in txt and "# ty :: export_all ( ) . expect (" in txt
-    tys = [e for e in templates(fn) if any(c["k"] == "let" and S.squash(c["pat"]) == "ty" for c in e["ctx"])]
-    ok_ty = bool(tys) and "< # rust_ty < # ( # generic_params ) , * > as # crate_rename :: TS >" in " ".join(S.flat(tys[0]["tokens"]))
-    dummy = any("# crate_rename :: Dummy" in " ".join(S.flat(e["tokens"])) and any(c["k"] == "match" and S.squash(c["pat"]) == "None" for c in e["ctx"]) for e in templates(fn))
-    r.inst(fn=fn["qual"], calls_export_all=ok, erased_instantiation=ok_ty, dummy_for_generic_params=dummy)
-    if not (ok and ok_ty and dummy):
-        r.fail(prop, "export-test-shape generate_export_test", "the generated export test does not call `<Item<Dummy,..> as TS>::export_all().expect(..)`", fn["file"], fn["line"])
+    for ib, t, txt in found:
+        attrs = "# [ cfg ( test ) ]" in txt and "# [ test ]" in txt
+        m = re.search(r"< # (\w+) < (.*?) > as # \w+ :: TS > :: export_all \( \) \. (expect \(|unwrap \( \))", txt)
+        recv_ty = None
+        if m:
+            nm = m.group(1)
+            recv_ty = next((ty for n2, _, ty in t.interps if n2 == nm), None)
+        ok = attrs and m is not None and "#" in (m.group(2) if m else "") and (recv_ty is None or "Ident" in recv_ty)
+        r.inst(fn=ib.path, where="%s:%s" % (t.file, t.line), test_attributes=attrs, calls=(m.group(0)[:80] if m else None), ok=ok)
+        if not ok:
+            r.fail(prop, "export-test-shape generate_export_test", "the generated export test is not `#[cfg(test)] #[test] fn ..() { <Item<..> as TS>::export_all().expect(..) }` (it reads: %s)" % txt[:160], t.file, t.line)
     r.floor = 1
     return r
 
